@@ -764,6 +764,29 @@ fn build_network(case: &Value) -> Network {
             b.package_m(name, meta, &vs);
         }
         b.serve(&mut network);
+        // index entries with `"yanked": true` (the builder of the test suite cannot express them): re-serve the index
+        // line of every package that has one
+        for (name, versions) in reg["packages"].as_object().into_iter().flatten() {
+            let vs = versions.as_array().unwrap();
+            if name.len() >= 4 && vs.iter().any(|v| v["yanked"].as_bool().unwrap_or(false)) {
+                let text = vs
+                    .iter()
+                    .map(|v| {
+                        serde_json::to_string(&json!({
+                            "name": name, "vers": v["version"].as_str().unwrap(), "deps": [],
+                            "cksum": "90527ab4abff2f0608cdb1a78e2349180e1d92059f59b5a65ce2a1a15a499b73",
+                            "features": {}, "yanked": v["yanked"].as_bool().unwrap_or(false)
+                        }))
+                        .unwrap()
+                    })
+                    .collect::<Vec<_>>()
+                    .join("\n");
+                network.mock_serve(
+                    format!("https://index.crates.io/{}/{}/{name}", &name[0..2], &name[2..4]).to_ascii_lowercase(),
+                    text,
+                );
+            }
+        }
     }
     network
 }
@@ -2722,6 +2745,11 @@ fn build_archive(entries: &[Value]) -> Vec<u8> {
                 let n = t.len().min(ln.len());
                 ln[..n].copy_from_slice(&t[..n]);
             }
+            "contiguous" => {
+                // type flag '7': rare, unpacked by the tar crate like a regular file
+                header.set_entry_type(tar::EntryType::Continuous);
+                header.set_size(content.len() as u64);
+            }
             _ => {
                 header.set_entry_type(tar::EntryType::Regular);
                 header.set_size(e["size"].as_u64().unwrap_or(content.len() as u64));
@@ -2731,7 +2759,7 @@ fn build_archive(entries: &[Value]) -> Vec<u8> {
         header.set_mtime(0);
         header.set_cksum();
         tarbytes.extend_from_slice(header.as_bytes());
-        if e["kind"].as_str().unwrap_or("file") == "file" {
+        if matches!(e["kind"].as_str().unwrap_or("file"), "file" | "contiguous") {
             tarbytes.extend_from_slice(&content);
             let pad = (512 - content.len() % 512) % 512;
             tarbytes.extend(std::iter::repeat(0u8).take(pad));
@@ -2911,6 +2939,8 @@ fn run_lock(case: &Value) -> Value {
     let inside = [AtomicUsize::new(0), AtomicUsize::new(0)];
     let max_inside = [AtomicUsize::new(0), AtomicUsize::new(0)];
     let t0 = Instant::now();
+    let rt = tokio::runtime::Handle::try_current().ok();
+    let rt = &rt;
     let results: Vec<Value> = std::thread::scope(|sc| {
         let handles: Vec<_> = users
             .iter()
@@ -2943,6 +2973,12 @@ fn run_lock(case: &Value) -> Value {
                                 Some(crate::format::FetchCommand::Inspect { version, .. }) => version.semver.major,
                                 _ => 0,
                             };
+                            if u["clean"].as_bool().unwrap_or(false) {
+                                // `cargo vet gc --clean` while holding the cache
+                                if let Some(h) = &rt {
+                                    let _ = h.block_on(cache.clean());
+                                }
+                            }
                             std::thread::sleep(think);
                             cache.set_last_fetch(crate::format::FetchCommand::Inspect {
                                 package: "counter".to_owned(),
